@@ -72,19 +72,26 @@ MemVal(w, cl) == CASE cl = "zero" -> Big(<<>>) [] cl = "one" -> Big(<<1>>) [] cl
 -----------------------------------------------------------------------------
 (* abstract case space *)
 Has(L, t) == \E i \in 1..Len(L) : L[i].t = t
+HasMulti(L) == \E i \in 1..Len(L) : L[i].t = "mem" /\ L[i].multi
 NoMem == [auto |-> FALSE, alfid |-> 0, aw |-> 0, sw |-> 0, ac |-> "zero", sc |-> "zero"]
 DefMem == [auto |-> FALSE, alfid |-> 18, aw |-> 2, sw |-> 1, ac |-> "exact", sc |-> "exact"]
 Corner == {1, 4, 15}
 MemSet ==
-  \* every width pair, format given and format computed by the library
+  \* every width pair 1..15 x 1..15, format given and format computed by the library
   {[auto |-> a, alfid |-> sw * 16 + aw, aw |-> aw, sw |-> sw, ac |-> "exact", sc |-> "exact"] :
      a \in BOOLEAN, aw \in 1..15, sw \in 1..15}
-  \* corner widths x every value class of address and size
-  \cup {[auto |-> a, alfid |-> sw * 16 + aw, aw |-> aw, sw |-> sw, ac |-> ac, sc |-> sc] :
-          a \in BOOLEAN, aw \in Corner, sw \in Corner, ac \in MemClasses, sc \in MemClasses}
+  \* corner widths x value classes of address and size (one of them at a time)
+  \cup {[auto |-> a, alfid |-> sw * 16 + aw, aw |-> aw, sw |-> sw, ac |-> p[1], sc |-> p[2]] :
+          a \in BOOLEAN, aw \in Corner, sw \in Corner,
+          p \in {q \in MemClasses \X MemClasses : q[1] = "exact" \/ q[2] = "exact" \/ q[1] = q[2]}}
   \* malformed format bytes
   \cup {[auto |-> FALSE, alfid |-> x, aw |-> 1, sw |-> 1, ac |-> "zero", sc |-> "zero"] :
           x \in {-1, 0, 1, 16, 256, 255}}
+RespMemSet ==
+  {[auto |-> FALSE, alfid |-> sw * 16 + aw, aw |-> aw, sw |-> sw, ac |-> "exact", sc |-> "exact"] :
+     aw \in 1..15, sw \in 1..15}
+  \cup {[auto |-> FALSE, alfid |-> sw * 16 + aw, aw |-> aw, sw |-> sw, ac |-> ac, sc |-> sc] :
+          aw \in Corner, sw \in Corner, ac \in {"zero", "one", "exact"}, sc \in {"zero", "one", "exact"}}
 
 Focusable(d) == \/ d.t = "sf" /\ d.fix < 0
                 \/ d.t \in {"u", "nib", "grp", "optu"}
@@ -92,12 +99,16 @@ SubsOf(d) == IF d.t = "grp" THEN 1..Len(d.ns) ELSE {1}
 ClassesOf(d, req) ==
   IF ~req THEN InClasses
   ELSE CASE d.t = "sf" -> SfClasses [] d.t = "nib" -> NibClasses [] OTHER -> UClasses
+Neutral == [i |-> 0, j |-> 1, c |-> "none", b |-> "mid"]
 FocusSet(L, req) ==
   {[i |-> 0, j |-> 1, c |-> "none", b |-> bb] : bb \in {"min", "mid", "max"}}
   \cup UNION {{[i |-> i, j |-> j, c |-> cl, b |-> "mid"] : j \in SubsOf(L[i]), cl \in ClassesOf(L[i], req)} :
                 i \in {x \in 1..Len(L) : Focusable(L[x])}}
+\* records ISO makes mandatory are not left empty in generated *responses*
+RlOk(L, req, rl) == req \/ \A i \in 1..Len(L) : (L[i].t = "rest" /\ L[i].min > 0) => rl # "empty"
 
-Abs(k, L, req) ==
+\* (1) boundary classes of every field x suppress bit x record lengths x group counts
+AbsFields(k, L, req) ==
   {a \in
     [kind : {k},
      sup  : IF req /\ Has(L, "sf") THEN BOOLEAN ELSE {FALSE},
@@ -105,18 +116,36 @@ Abs(k, L, req) ==
      opt  : IF Has(L, "optu") \/ Has(L, "ext") THEN BOOLEAN ELSE {FALSE},
      rl   : IF Has(L, "rest") \/ Has(L, "rest2") \/ Has(L, "ext") THEN RlClasses ELSE {"na"},
      rl2  : IF Has(L, "rest2") THEN RlClasses ELSE {"na"},
-     gc   : IF Has(L, "grp") \/ (\E i \in 1..Len(L) : L[i].t = "mem" /\ L[i].multi) THEN 0..MaxGroups ELSE {1},
+     gc   : IF Has(L, "grp") \/ HasMulti(L) THEN 0..MaxGroups ELSE {1},
      dup  : IF ~req /\ Has(L, "grp") THEN BOOLEAN ELSE {FALSE},
-     mm   : IF Has(L, "mem") THEN MemSet ELSE {NoMem},
-     lw   : IF Has(L, "lfi") THEN 1..15 ELSE {0},
+     mm   : IF Has(L, "mem") THEN {DefMem} ELSE {NoMem},
+     lw   : IF Has(L, "lfi") THEN {2} ELSE {0},
      sa   : IF req /\ k = "WriteMemoryByAddress" THEN BOOLEAN ELSE {FALSE}] :
-    \* memory dimensions vary only around the neutral case
-    /\ (a.mm \notin {NoMem, DefMem}) => (a.fo.i = 0 /\ a.fo.b = "mid")
     /\ a.dup => a.gc >= 2
-    \* responses are generated in range only
-    /\ (~req /\ a.mm # NoMem) => (a.mm.ac \in {"zero", "one", "exact"} /\ a.mm.sc \in {"zero", "one", "exact"}
-                /\ ~a.mm.auto /\ a.mm.alfid \in 17..255 /\ a.mm.alfid % 16 # 0)
-    /\ (~req /\ a.gc = 0) => a.fo.i = 0}
+    /\ RlOk(L, req, a.rl)
+    /\ (~req /\ a.gc = 0) => (a.fo.i = 0 /\ ~HasMulti(L))}
+\* (2) address / size widths 1..15 x value classes, around the neutral case
+AbsMem(k, L, req) ==
+  IF ~Has(L, "mem") THEN {}
+  ELSE [kind : {k},
+        sup  : IF req /\ Has(L, "sf") THEN BOOLEAN ELSE {FALSE},
+        fo   : {Neutral},
+        opt  : {FALSE},
+        rl   : IF Has(L, "rest") THEN {"some"} ELSE {"na"},
+        rl2  : {"na"},
+        gc   : IF HasMulti(L) THEN {2} ELSE {1},
+        dup  : {FALSE},
+        mm   : IF req THEN MemSet ELSE RespMemSet,
+        lw   : {0},
+        sa   : {FALSE}]
+\* (3) lengthFormatIdentifier widths 1..15
+AbsLfi(k, L, req) ==
+  IF ~Has(L, "lfi") THEN {}
+  ELSE [kind : {k}, sup : {FALSE},
+        fo   : {[i |-> 0, j |-> 1, c |-> "none", b |-> bb] : bb \in {"min", "mid"}},
+        opt  : {FALSE}, rl : {"na"}, rl2 : {"na"}, gc : {1}, dup : {FALSE}, mm : {NoMem},
+        lw   : 1..15, sa : {FALSE}]
+Abs(k, L, req) == AbsFields(k, L, req) \cup AbsMem(k, L, req) \cup AbsLfi(k, L, req)
 
 -----------------------------------------------------------------------------
 (* concretisation: abstract case -> field record *)
@@ -172,17 +201,19 @@ Conc(a, L, req) == ConcFrom(L, 1, a, req, VarInfo(a.kind, req))
 
 Sel(K) == IF KindSel = {} THEN K ELSE K \cap KindSel
 
-ReqCases ==
-  UNION {{[kind |-> k, abs |-> a, f |-> Conc(a, ReqLayout[k], TRUE)] : a \in Abs(k, ReqLayout[k], TRUE)} :
-           k \in Sel(ReqKinds)}
+\* cases with their abstract coordinates (exported), and the concrete cases explored
+ReqAbsCasesOf(K) ==
+  UNION {{[kind |-> k, abs |-> a, f |-> Conc(a, ReqLayout[k], TRUE)] : a \in Abs(k, ReqLayout[k], TRUE)} : k \in K}
+ReqCases == {[kind |-> x.kind, f |-> x.f] : x \in ReqAbsCasesOf(Sel(ReqKinds))}
 
 Muts == {"none", "trunc1", "ext1"}
 Mutate(b, m) == CASE m = "none" -> b [] m = "trunc1" -> SubSeq(b, 1, Len(b) - 1) [] m = "ext1" -> b \o <<85>>
-RespCases ==
-  UNION {{[kind |-> k, abs |-> a, f |-> Conc(a, RespLayout[k], FALSE), mut |-> m,
-           b |-> Mutate(Enc(RespLayout[k], Conc(a, RespLayout[k], FALSE) @@ [alfid_auto |-> FALSE]), m)] :
-            a \in Abs(k, RespLayout[k], FALSE), m \in Muts} :
-           k \in Sel(RespKinds)}
+RespAbsCasesOf(K) ==
+  UNION {{[kind |-> k, abs |-> a, f |-> Conc(a, RespLayout[k], FALSE),
+           b |-> Enc(RespLayout[k], Conc(a, RespLayout[k], FALSE) @@ [alfid_auto |-> FALSE])] :
+            a \in Abs(k, RespLayout[k], FALSE)} : k \in K}
+RespCases == {[kind |-> x.kind, f |-> x.f, mut |-> m, b |-> Mutate(x.b, m)] :
+                x \in RespAbsCasesOf(Sel(RespKinds)), m \in Muts}
 
 -----------------------------------------------------------------------------
 (* the codec pipeline *)
@@ -300,7 +331,7 @@ TypeOK == pc \in {"New", "Built", "Refused", "Encoded", "Dispatched", "Typed", "
                   "Recv", "Gate", "TypedResp", "RawResp", "Rejected"}
 \* the tables themselves: decoding an encoded in-range request gives the kind back
 L0_TablesRoundTrip ==
-  InR => /\ Dec(ReqLayout[c.kind], E).ok
+  (pc = "Built" /\ InR) => /\ Dec(ReqLayout[c.kind], E).ok
          /\ ReEnc(ReqLayout[c.kind], Dec(ReqLayout[c.kind], E).f) = E
          /\ ReqKindOf(E) = (IF c.kind \in VariantKinds THEN "InputOutputControlByIdentifier" ELSE c.kind)
 Q1_Constructible == (InR /\ ReqTerminal) => pc # "Refused"
